@@ -10,6 +10,12 @@ def run(tier, seed):
     n = 100 if tier == "quick" else 1200
     flav = ("asan",) if tier == "quick" else ("asan", "asan", "asan-ndebug")
     cases = sim_common.make_cases("C01", tier, seed, n, variants=(0,), fp_levels=(1, 2, 3, 10, 2, 10), sizes=(0, 0, 1, 0, 1) if tier == "quick" else (0, 1, 1, 2, 0), flavours=flav)
+    # a slice with every-event checkpoints, back-to-back GVT rounds and the serialized scheduler: fossil collection right behind the
+    # LP's frontier, the situation in which a wrongly committed event shows up in the final state
+    for i, c in enumerate(cases):
+        if i % 4 == 1:
+            c["ckpt"], c["gvt"], c["fp"] = 1, 0, 10
+            c["env"] = {"VM_FORCE_TS": str((0, 2)[(i // 4) % 2])}
     sim_common.run_sim_cases(chk, cases, timeout=300)
     chk.rule = ("one case = (generated model, threads 1..16 incl. more threads than LPs, checkpoint interval auto/1/2/3/5/7/64, GVT period 0..100 ms, "
                 "perturbation seed, failpoint level); the model family has timestamp ties, bounded zero-delay chains, payloads 0..300 bytes, fan-out, "
